@@ -208,6 +208,17 @@ func obsBytes(obs []int) []byte {
 	return b
 }
 
+// dropRegCount removes the registry-size readings from an observation log.
+func dropRegCount(obs []int) []int {
+	out := make([]int, 0, len(obs))
+	for i := 0; i+2 < len(obs); i += 3 {
+		if obs[i] != 7 {
+			out = append(out, obs[i], obs[i+1], obs[i+2])
+		}
+	}
+	return out
+}
+
 var obsName = []string{"Sub", "Write", "Release", "Cancel", "Exited", "Send", "SendEnd", "RegCount"}
 
 func obsString(obs []int) string {
@@ -396,6 +407,53 @@ func Run(c *core.Ctx) {
 	// shortest first, so that the first failure reported is a minimal one
 	sort.SliceStable(hs[exhStart:], func(i, j int) bool { return len(hs[exhStart+i].Ops) < len(hs[exhStart+j].Ops) })
 	c.Extra["exhaustive_max_ops"] = maxLen
+	// targeted churn: every sequence up to churnLen operations over {sub, cancel i, send} with up to 4 clients in which a
+	// client that is NOT the newest leaves, a later client subscribes, and a broadcast follows (registry keys must
+	// stay unique over the handler's lifetime, whoever leaves)
+	churnStart := len(hs)
+	churnLen := c.N(8, 9)
+	var churn func(prefix [][]int, clients int, gone map[int]bool, stage int)
+	churn = func(prefix [][]int, clients int, gone map[int]bool, stage int) {
+		// stage 0: nothing yet; 1: a non-newest client has left; 2: ... and a later subscribe; 3: ... and a broadcast
+		if stage == 3 {
+			hs = append(hs, hist{Kind: "forced", Ops: append([][]int{}, prefix...), family: "exhaustive churn: an older client leaves, a new one subscribes, then a broadcast"})
+		}
+		if len(prefix) == churnLen {
+			return
+		}
+		if clients < 4 {
+			st := stage
+			if st == 1 {
+				st = 2
+			}
+			churn(append(prefix, []int{hSubFree}), clients+1, gone, st)
+		}
+		for i := 1; i <= clients; i++ {
+			if gone[i] {
+				continue
+			}
+			st := stage
+			if st == 0 && i < clients {
+				st = 1
+			}
+			g := map[int]bool{i: true}
+			for k := range gone {
+				g[k] = true
+			}
+			churn(append(prefix, []int{hCancel, i}), clients, g, st)
+		}
+		if clients > 0 {
+			st := stage
+			if st == 2 {
+				st = 3
+			}
+			churn(append(prefix, []int{hSend}), clients, gone, st)
+		}
+	}
+	churn(nil, 0, map[int]bool{}, 0)
+	sort.SliceStable(hs[churnStart:], func(i, j int) bool { return len(hs[churnStart+i].Ops) < len(hs[churnStart+j].Ops) })
+	c.Extra["exhaustive_churn_histories"] = len(hs) - churnStart
+	c.Extra["exhaustive_churn_max_ops"] = churnLen
 	nRand := c.N(5000, 40000)
 	// core's seeds are consecutive SplitMix64 states (seed n+1 = seed n shifted by one draw): fork to decorrelate
 	rnd := c.Rng.Fork()
@@ -494,7 +552,9 @@ func Run(c *core.Ctx) {
 		if q > len(r.Obs) {
 			q = len(r.Obs)
 		}
-		reqs = append(reqs, drv.Req{Fn: "monitor", Args: [][]byte{obsBytes(r.Obs[:q])}}, drv.Req{Fn: "monitor", Args: [][]byte{obsBytes(r.Obs)}})
+		// request 1: the history up to the quiescence point WITHOUT the registry-size readings - it decides whether
+		// every event reached every live client, whatever the registry looks like; request 2: everything (the tie)
+		reqs = append(reqs, drv.Req{Fn: "monitor", Args: [][]byte{obsBytes(dropRegCount(r.Obs[:q]))}}, drv.Req{Fn: "monitor", Args: [][]byte{obsBytes(r.Obs)}})
 		reqH = append(reqH, h)
 	}
 	// regression witness through the extracted code: the old variant panics on the forced schedule, the current one does not
@@ -559,18 +619,17 @@ func Run(c *core.Ctx) {
 			accepted = false
 			continue
 		}
-		if string(full[0]) != "1" || string(pre[0]) != "1" {
-			idx, _ := strconv.Atoi(string(full[1]))
-			if string(pre[0]) != "1" {
-				idx, _ = strconv.Atoi(string(pre[1]))
+		describe := func(obs []int, reply [][]byte) (int, int, string) {
+			idx, _ := strconv.Atoi(string(reply[1]))
+			if 3*idx+2 < len(obs) {
+				return idx, obs[3*idx], obsString(obs[3*idx : 3*idx+3])
 			}
-			what := "?"
-			op := -1
-			if 3*idx+2 < len(r.Obs) {
-				op = r.Obs[3*idx]
-				what = obsString(r.Obs[3*idx : 3*idx+3])
-			}
-			fam := "observed history is an execution of the model (extracted monitor accepts it)"
+			return idx, -1, "?"
+		}
+		const famAccept = "observed history is an execution of the model (extracted monitor accepts it)"
+		if string(full[0]) != "1" {
+			idx, op, what := describe(r.Obs, full)
+			fam := famAccept
 			if op == 7 {
 				regOK = false
 				fam = "registry size (hook) = model's registry size at quiescent points"
@@ -579,6 +638,16 @@ func Run(c *core.Ctx) {
 			}
 			if c.NFails(fam) < 3 {
 				c.Fail("tie", fam, "", in, fmt.Sprintf("the model cannot follow observation #%d %s", idx, what))
+			}
+		}
+		if string(pre[0]) != "1" {
+			if string(full[0]) == "1" {
+				accepted = false
+			}
+			pobs := dropRegCount(r.Obs[:min(r.Q*3, len(r.Obs))])
+			idx, _, what := describe(pobs, pre)
+			if c.NFails(famAccept) < 3 {
+				c.Fail("tie", famAccept, "", in, fmt.Sprintf("the model cannot follow observation #%d %s (registry readings left out)", idx, what))
 			}
 			continue
 		}
@@ -599,7 +668,7 @@ func Run(c *core.Ctx) {
 				c.Fail("tie", "model quiescent at the quiescence point", "", in, "a Send call has not returned in the model")
 			}
 		}
-		if string(full[2]) != "1" {
+		if string(full[0]) == "1" && string(full[2]) != "1" {
 			accepted = false
 		}
 		if r.G1 > r.G0 || r.SSERunning > 0 {
